@@ -662,11 +662,11 @@ pub fn run(args: &Args, report: &mut Report) {
         }
         return;
     }
-    let n1 = report.size(8000, 200_000);
-    let n2 = report.size(2400, 60_000);
-    let n3 = report.size(8000, 200_000);
-    let n4 = report.size(96, 1920);
-    let n5 = report.size(2400, 60_000);
+    let n1 = report.size(8000, 1_000_000);
+    let n2 = report.size(2400, 300_000);
+    let n3 = report.size(8000, 1_000_000);
+    let n4 = report.size(96, 6000);
+    let n5 = report.size(2400, 300_000);
     crate::report::par_run(report, n5, |i, rep| lowrank_rank0(rep, seed, i));
     crate::report::par_run(report, n1 + n2 + n3 + n4, |i, rep| {
         if i < n1 {
